@@ -49,7 +49,17 @@ def fire_exec(e):
     exec(code, {"e": e})
 
 
+def act_scoped(io, point, outcome):
+    # the outcome happens inside an indentation scope of the I/O (a context manager the library provides); this function
+    # ends with the scope: whatever leaves the scope leaves the handler
+    with (io.indent(2) if point == "indent" else io.increment_indent(2)):
+        io.write_line("handler-out")
+        return act(io, "none", outcome)
+
+
 def act(io, point, outcome):
+    if point in ("indent", "incr"):
+        return act_scoped(io, point, outcome)
     if point == "out":
         io.write_line("handler-out")
     elif point == "err":
@@ -359,7 +369,8 @@ def run_case(env, case):
         if status == 0:
             return bad("status:zero-on-exception", "%s raised %s, run returned 0" % (who, type(exc).__name__), "1..255", status)
         if not isinstance(exc, KeyboardInterrupt):
-            own = {"none": 0, "out": len("handler-out\n"), "err": len("handler-err\n")}[point]
+            own = {"none": 0, "out": len("handler-out\n"), "err": len("handler-err\n"),
+                   "indent": len("  handler-out\n"), "incr": len("  handler-out\n")}[point]
             if len(o) + len(e_) <= own:
                 return bad("report:empty", "%s raised %s(%r): nothing was reported" % (who, type(exc).__name__, str(exc)),
                            "non-empty report on stdout or stderr", {"stdout": o, "stderr": e_})
@@ -408,7 +419,9 @@ def blocks(tier):
     msg   : messages of exactly K fragments: kinds x verbosity x ANSI at point 'none', no listener
             (the dimensions the report rendering can depend on)
     cli   : messages of 1..K fragments placed on the command line (unknown command / unknown option)
-    streams: real StreamOutputStreams (unknown / missing / ASCII encoding name) x 4 kinds x verbosity x ANSI"""
+    streams: real StreamOutputStreams (unknown / missing / ASCII encoding name) x 4 kinds x verbosity x ANSI
+    scoped : every kind of exception (and three return values) leaving an indentation scope of the I/O (`with io.indent(2)` /
+             `with io.increment_indent(2)`) in the handler or in a raising listener x verbosity x ANSI"""
     k = bound(tier)
     for vname, _ in returns():
         yield ("ret", vname)
@@ -426,6 +439,7 @@ def blocks(tier):
             yield ("cli", msg)
     for sk in ("stream-unknown-encoding", "stream-no-encoding", "stream-ascii"):
         yield ("streams", sk)
+    yield ("scoped", "x")
 
 
 def block_cases(block):
@@ -447,6 +461,14 @@ def block_cases(block):
     elif part == "cli":
         for shape, verb, ansi in itertools.product(["command", "option"], VERBOSITY, (False, True)):
             yield ["cli", shape, x, verb, ansi]
+    elif part == "scoped":
+        # the handler (or the raising listener) returns / raises from inside `with io.indent(n)` / `with io.increment_indent(n)`
+        for point in ("indent", "incr"):
+            for vname in ("0", "7", "256"):
+                for verb, ansi in itertools.product(VERBOSITY, (False, True)):
+                    yield ["ret", vname, "handler", point, "none", 0, verb, ansi]
+            for (kind, _, _), listener, verb, ansi in itertools.product(KINDS, ("none", "raise"), VERBOSITY, (False, True)):
+                yield ["exc", kind, point, x, listener, 0, verb, ansi]
     elif part == "streams":
         # output streams other than buffers
         for kind in ("Exception", "AppError", "from2", "exec"):
